@@ -51,6 +51,9 @@ class Check:
     def tlc(self, module, cfg=None, require=(), expect_ok=True, **kw):
         if not self.quick:      # the thorough tier may share the machine with other checks: never give up on wall time early
             kw['timeout'] = 4 * kw.get('timeout', 1500)
+        # bounded heap: the JVM default (a quarter of the RAM per process) lets a handful of concurrent TLC runs exhaust the
+        # machine (seen: rc=-9 from the OOM killer with several checks running side by side)
+        kw.setdefault('heap', '5g' if self.quick else '14g')
         res = tlcmod.run(module, cfg, **kw)
         with _ACCOUNT:   # drivers may run several TLC processes from a thread pool
             return self._account(module, cfg, require, expect_ok, res)
